@@ -1,9 +1,11 @@
 #!/bin/bash
-# Re-checks every recorded seeded change against the current checks (quick tier; thorough for the ones that need it)
-# and prints one line per change. usage: tools/seeded_all.sh [quick|thorough]
+# Re-checks every recorded seeded change against the current checks and prints one line per change.
+# usage: tools/seeded_all.sh [quick|thorough] [parallel jobs, default 3]
 cd "$(dirname "$0")/.."
 tier=${1:-quick}
-for d in seeded/*/; do
+jobs=${2:-3}
+one() {
+  d=$1; tier=$2
   n=$(basename $d)
   props=$(python3 -c "
 import json; m=json.load(open('$d/meta.json')); print(' '.join(sorted({k.split('/')[0] for k in m.get('checks',{})})))")
@@ -11,4 +13,6 @@ import json; m=json.load(open('$d/meta.json')); print(' '.join(sorted({k.split('
   python3 -c "
 import json; m=json.load(open('$d/meta.json'))
 print('$n', m.get('existing_tests_with_patch'), m.get('demo_with_patch'), m.get('demo_without_patch'), {k:v['caught'] for k,v in sorted(m['checks'].items()) if k.endswith('/$tier')})"
-done
+}
+export -f one
+ls -d seeded/*/ | xargs -P $jobs -I{} bash -c "one {} $tier"
